@@ -79,6 +79,33 @@ def run(ctx, drv):
                          f"algorithms.{name} (operators / types)")
             ctx.case(("redeclared-types", name, first, second), True)
     ctx.count("redeclared_type_runs", 15)
+    # ---- ... and changed after the algorithm object was built but before it runs (the declaration that counts is the one in force
+    # when the problem function is called)
+    for name in ("NSGAII", "SMPSO", "OMOPSO", "GDE3", "CMAES", "PAES"):
+        for first, second in (((0.0, 1.0), (2.0, 3.0)), ((-10.0, 10.0), (-1.0, 0.5))):
+            seen = []
+            p = Problem(3, 2, function=lambda x: (seen.append(list(x)) or [sum(v * v for v in x), sum((v - 1) ** 2 for v in x)]))
+            p.types[:] = Real(*first)
+            _random.seed(rng.randrange(2 ** 31))
+            mk = {"SMPSO": lambda: A.SMPSO(p, swarm_size=8, leader_size=8), "OMOPSO": lambda: A.OMOPSO(p, epsilons=[0.05], swarm_size=8, leader_size=8),
+                  "CMAES": lambda: A.CMAES(p, offspring_size=8), "PAES": lambda: A.PAES(p)}.get(name, lambda: getattr(A, name)(p, population_size=8))
+            alg = plat.call(mk)
+            inp = {"algorithm": name, "declared_when_constructed": list(first), "declared_before_run": list(second), "operators": "library defaults"}
+            if isinstance(alg, str):
+                ctx.notes.append(f"types-declared-after-construction run aborted: {name}: {alg}")
+                continue
+            p.types[:] = Real(*second)
+            r = plat.call_guarded(lambda: alg.run(160), seconds=30)
+            if isinstance(r, str):
+                ctx.notes.append(f"types-declared-after-construction run aborted: {name}: {r}")
+                continue
+            bad = [x for x in seen if not all(second[0] <= v <= second[1] for v in x)]
+            if bad:
+                ctx.fail("invalid-argument-to-problem-function", dict(inp, argument=bad[0]), bad[0], f"every variable in [{second[0]}, {second[1]}]",
+                         f"algorithms.{name} (bounds remembered from construction time)")
+                ctx.failures[-1]["input_class"] = "types-declared-after-construction"
+            ctx.case(("types-after-construction", name, first, second), len(seen) > 0)
+    ctx.count("types_declared_after_construction_runs", 12)
     # ---- CMA-ES in moderate dimension with boxes that are narrow relative to its step size (sampling has to repair / resample often)
     for widths, seed_ in (([(-1.0, 1.0)] * 10 + [(0.0, 0.5)] * 4, 7), ([(-1.0, 1.0)] * 8 + [(0.0, 0.5)] * 3, rng.randrange(2 ** 31)),
                           ([(2.0, 4.0)] * 9 + [(-0.5, 0.0)] * 3, rng.randrange(2 ** 31))):
